@@ -30,7 +30,7 @@ INFO = dict(
               'iff size <= min else closed and uncounted; a dead connection on release closes the pool and each live waiter receives exactly '
               'one ServiceClosedError; no connection ever carries two requests. (b) the same oracle after each of k public-API operations '
               'from the real initial state, including two completions in one scheduler slice.',
-  bounds={'quick': '(a) a,b,w <= 2, config symbolic in [0..3]x[1..3]x[0..3]; (b) k <= 6 operations, <=3 concurrent requests, config in [0..3]^3',
+  bounds={'quick': '(a) a,b,w <= 2, config symbolic in [0..3]x[1..3]x[0..3]; (b) k <= 6 operations, <=3 concurrent requests, config in [0..3]^3; (c) 3 arrivals at symbolic instants while connections take a symbolic while to open',
           'thorough': '(a) a,b,w <= 3, config in [0..4]^3; (b) k <= 10 operations'},
   outside=['more cached / lent / waiting requests than the shape bound', 'Open() of a new connection that fails or blocks (connections open at once here; C08/C09)',
            're-opening a closed pool'],
